@@ -72,6 +72,7 @@ InitMon(t) ==
      tx |-> [c \in Clients(t) |-> [d |-> 0, w |-> <<>>, made |-> {}]],
      now |-> 0,
      faulty |-> ("faulty" \in DOMAIN t.init /\ t.init.faulty = 1),
+     sharded |-> ("sharded" \in DOMAIN t.init /\ t.init.sharded = 1),
      known |-> {}]
 
 RowOfKey(S, k) == LET i == Find(S.rows, k) IN IF i = 0 THEN <<>> ELSE <<ProjRow(S.rows[i])>>
@@ -296,7 +297,19 @@ OnRet(Mo, e) ==
        THEN \* C14: nothing of the call took effect (loops report what they removed)
             IF cl.st = "committed" /\ ~IsLoopOp(cl.op)
             THEN Fail(Mo, "C14 a call that timed out had already committed")
+            ELSE IF Mo.sharded
+            THEN Fail(Mo, "C14 a sharded cache raised Timeout instead of reporting the failure through its return value")
+            ELSE IF "retry" \in DOMAIN cl.a /\ cl.a.retry = 1
+            THEN Fail(Mo, "C14 Timeout although the call asked to retry (it must wait for the lock and then succeed)")
+            ELSE IF cl.busy = 0
+            THEN Fail(Mo, "C14 Timeout although the call never failed to obtain the write lock (a lookup that needs no write must keep working)")
+            ELSE IF IsLoopOp(cl.op) /\ ~IsQueueLoop(cl.op) /\ e.ret.v # <<cl.count>>
+            THEN Fail(Mo, "C14 a bulk removal that timed out must report how many items it had removed: " \o ToString(cl.count))
             ELSE done1
+       ELSE IF Mo.sharded /\ cl.st = "open" /\ cl.busy > 0 /\ e.ret.k \in {"false", "none", "miss"} /\ ~IsLoopOp(cl.op)
+               /\ ~("retry" \in DOMAIN cl.a /\ cl.a.retry = 1)
+       THEN \* C14: sharded caches report the failure through their return value; nothing changed
+            done1
        ELSE IF IsQueueLoop(cl.op)
        THEN IF cl.fin /\ e.ret = cl.exp THEN done1
             ELSE Fail(Mo, "C05/C10 " \o cl.op \o " returned " \o ToJson(e.ret) \o " expected " \o ToJson(cl.exp))
@@ -373,7 +386,8 @@ MStep(Mo, e) ==
                                    \* when it obtains the lock
                                    ELSE V(TRUE, [Mo EXCEPT !.lock = IF e.kind = "deferred" THEN @ ELSE e.c,
                                                            !.tx[e.c].w = IF Mo.tx[e.c].d = 1 THEN Mo.db ELSE @], "")
-                              ELSE V(TRUE, Mo, "")
+                              ELSE \* a failed attempt to obtain the write lock
+                                   V(TRUE, [Mo EXCEPT !.call[e.c] = IF @.op = "none" THEN @ ELSE [@ EXCEPT !.busy = @ + 1]], "")
       [] e.ev = "commit"   -> OnCommit(Mo, e)
       [] e.ev = "awrite"   -> OnCommit(Mo, e)
       [] e.ev = "rollback" -> OnRollback(Mo, e)
